@@ -109,3 +109,35 @@ Definition is_read (o : op) : bool :=
 Definition screate (cs : list name) (rs : list row) : sstate := mkS cs (unkeyed rs) None.
 Definition wf_create (cs : list name) (rs : list row) : bool :=
   forallb (fun r => Nat.eqb (length r) (length cs)) rs.
+
+(* ---- several tables in one database: every table is its own list / finite map ------------------------------- *)
+Definition sdstep (d : list sstate) (o : dop) : list sstate * dobs :=
+  match o with
+  | DSchema => (d, DSchemas (map s_cols d))
+  | DOp i o => match nth_error d i with
+               | None => (d, DV VErr)
+               | Some s => let '(s1, v) := sstep s o in (upd i s1 d, DV v)
+               end
+  end.
+Fixpoint sdrun (d : list sstate) (ops : list dop) : list dobs :=
+  match ops with
+  | [] => []
+  | o :: r => let '(d1, v) := sdstep d o in v :: sdrun d1 r
+  end.
+Definition dop_dom (d : list sstate) (o : dop) : bool :=
+  match o with
+  | DSchema => true
+  | DOp i o => match nth_error d i with Some s => op_dom s o | None => true end
+  end.
+Fixpoint sddom (d : list sstate) (ops : list dop) : bool :=
+  match ops with
+  | [] => true
+  | o :: r => dop_dom d o && sddom (fst (sdstep d o)) r
+  end.
+Fixpoint sddom_len (d : list sstate) (ops : list dop) : nat :=
+  match ops with
+  | [] => O
+  | o :: r => if dop_dom d o then S (sddom_len (fst (sdstep d o)) r) else O
+  end.
+
+Definition sdcreate (tbls : list (list name * list row)) : list sstate := map (fun cr => screate (fst cr) (snd cr)) tbls.
